@@ -678,6 +678,11 @@ fn run_inner(c12_files: bool) -> Outcome {
                         if !p.is_file() {
                             simkit::probe("e3.file_result_missing_at_return");
                         }
+                        // the path must be the one of *this* module and *this* kind of file
+                        let want = breakpad_symbols::lookup(&*m, k).map(|l| l.cache_rel);
+                        if want.as_deref().map(|w| !p.ends_with(w)).unwrap_or(true) {
+                            simkit::probe("e3.file_result_wrong_path");
+                        }
                     }
                     OpResult::File(r)
                 }
@@ -773,6 +778,7 @@ fn run_inner(c12_files: bool) -> Outcome {
         }
         m.check_fs()?;
         simkit::ensure!(simkit::with_ctx(|c| c.probes.get("e3.file_result_missing_at_return").copied().unwrap_or(0)) == 0, "c16.file_result_missing", "locate_file returned a path that was not a file at the moment of return");
+        simkit::ensure!(simkit::with_ctx(|c| c.probes.get("e3.file_result_wrong_path").copied().unwrap_or(0)) == 0, "c12.file_result_wrong_path", "locate_file returned the path of a different module or a different kind of file (requesters of distinct files share one remembered result)");
         // 3. no temp file left once everything resolved or was cancelled
         if m.tmp.is_dir() {
             let (tfiles, _) = list_tree(&m.tmp.clone());
